@@ -402,6 +402,15 @@ def fits_bounded_instance():
         init = rng.dirichlet(np.ones(K), size=lead + (N,))
         init = np.moveaxis(init, -1, -2).copy()
         sal = rng.uniform(0.3, 2.0, size=lead + (N,))
+        # memory layouts of the caller's tensors: masks kept class-major (K, ..., N) and handed over as a (..., K, N) view, observations
+        # in Fortran order, a saliency that is a transposed view
+        lay = (inp['seed'] // 3) % 3
+        if lay == 1:
+            init = np.moveaxis(np.ascontiguousarray(np.moveaxis(init, -2, 0)), 0, -2)
+            sal = np.ascontiguousarray(sal.T).T
+        elif lay == 2:
+            y = np.asfortranarray(y)
+            init = np.asfortranarray(init)
 
         def run(yy, ii, ss):
             if which in ('cacgmm', 'cwmm', 'vmfmm', 'cbmm') or which.startswith('gmm'):
@@ -454,7 +463,7 @@ def wide_range_models_bounded_instance():
     from pb_bss.distribution import ComplexWatson, VonMisesFisher, ComplexAngularCentralGaussian, CWMM
 
     def make(B):
-        return {'family': B.choose('family', ['watson', 'watson', 'vmf', 'cacg', 'cwmm']), 'nlead': B.choose('nlead', [1, 2]),
+        return {'family': B.choose('family', ['watson', 'watson', 'vmf', 'cacg', 'cwmm', 'gauss-spherical', 'gauss-diagonal', 'gauss-full']), 'nlead': B.choose('nlead', [1, 2, 2]),
                 'D': B.choose('D', [2, 3, 5]), 'seed': B.choose('seed', list(range(3000))), 'd': B.given('d', np.zeros(1))}
 
     def call(inp):
@@ -475,7 +484,26 @@ def wide_range_models_bounded_instance():
         lo = np.array([b[0] for b in bands])[pick]
         hi = np.array([b[1] for b in bands])[pick]
         kappa = rng.uniform(lo, hi)
-        if fam == 'watson':
+        def nc(a):
+            # the same values in a different memory layout (leading axes stored in the opposite order) for every other scene
+            if len(lead) == 2 and inp['seed'] % 2 and a.ndim >= 2:
+                return np.swapaxes(np.ascontiguousarray(np.swapaxes(a, 0, 1)), 0, 1)
+            return a
+        if fam.startswith('gauss'):
+            from pb_bss.distribution import Gaussian, DiagonalGaussian, SphericalGaussian
+            mean = nc(rng.normal(size=lead + (D,)))
+            if fam == 'gauss-spherical':
+                cov = nc(10.0 ** rng.uniform(-3, 2, size=lead))
+                obj = lambda ix: SphericalGaussian(mean=mean[ix], covariance=cov[ix])      # noqa
+            elif fam == 'gauss-diagonal':
+                cov = nc(10.0 ** rng.uniform(-3, 2, size=lead + (D,)))
+                obj = lambda ix: DiagonalGaussian(mean=mean[ix], covariance=cov[ix])      # noqa
+            else:
+                a_ = rng.normal(size=lead + (D, D))
+                cov = nc(a_ @ np.swapaxes(a_, -1, -2) + 0.1 * np.eye(D))
+                obj = lambda ix: Gaussian(mean=mean[ix], covariance=cov[ix])      # noqa
+            y = rng.normal(size=lead + (N, D))
+        elif fam == 'watson':
             m = cn(*lead, D)
             obj = lambda ix: ComplexWatson(mode=(m / np.linalg.norm(m, axis=-1, keepdims=True))[ix], concentration=kappa[ix])      # noqa
             y = cn(*lead, N, D)
@@ -494,7 +522,8 @@ def wide_range_models_bounded_instance():
             w = rng.dirichlet(np.ones(2), size=lead)[..., None]
             obj = lambda ix: CWMM(weight=w[ix], complex_watson=ComplexWatson(mode=(m / np.linalg.norm(m, axis=-1, keepdims=True))[ix], concentration=kappa[ix]))      # noqa
             y = cn(*lead, N, D)
-        y = y / np.linalg.norm(y, axis=-1, keepdims=True)
+        if not fam.startswith('gauss'):
+            y = y / np.linalg.norm(y, axis=-1, keepdims=True)
         ev_ = (lambda o, yy: o.predict(yy)) if fam == 'cwmm' else (lambda o, yy: o.log_pdf(yy))
         with np.errstate(all='ignore'):
             full = np.asarray(ev_(obj(Ellipsis), y))
